@@ -300,6 +300,18 @@ def arity_filter(ctx):
 
 
 def r2_arity_keyword_filter(ctx, strict_extra=False):
+    from . import mroexec
+    from .common import run_fallback
+
+    n0 = len(ctx.obs)
+    try:
+        mroexec.law(ctx, "candidates", "specificity")
+    except AnalysisError as e:
+        del ctx.obs[n0:]
+        run_fallback(ctx, lambda c: _r2_arity_keyword_filter_shape(c, strict_extra), e, "candidate ranking")
+
+
+def _r2_arity_keyword_filter_shape(ctx, strict_extra=False):
     m, keyparam, (_kind, st, conj), legs = arity_filter(ctx)
     ctx.touch(m)
     # locals
